@@ -171,12 +171,12 @@ class BaseSection(base.Sectionable):
 
     @name.setter
     def name(self, new_value):
-        if self.name == new_value:
-            return
-
-        # Make sure name cannot be set to None or empty
+        # Make sure name cannot be set to None or empty; the id serves as name
+        # and has to be unique among the siblings like any other name.
         if not new_value:
-            self._name = self._id
+            new_value = self._id
+
+        if self.name == new_value:
             return
 
         curr_parent = self.parent
